@@ -369,13 +369,12 @@ type c03Emit struct {
 	Err  string // non-empty: encoding/xml cannot name the value (or the model cannot decide)
 }
 
-// c03StartOverride describes what a MarshalXML method does with the start element it is handed.
+// c03StartOverride describes what a MarshalXML method does with the start element it is handed (observed on its
+// paths with every field set, see c04StartOverrideOf).
 type c03StartOverride struct {
-	Forced   string // constant written to start.Name.Local ("" = none)
-	Passes   bool   // the handed start element reaches EncodeToken/EncodeElement unrenamed
-	Emits    bool   // the method emits a start token at all
-	Unknown  string // shape outside the enumerated idioms
-	ForcePos token.Pos
+	Forced  string // constant name of the element it writes ("" = none)
+	Passes  bool   // the handed start element is written unrenamed
+	Unknown string // the name it writes cannot be resolved
 }
 
 // c03EmittedNames computes the element name(s) marshalValue gives a value of static type t when
@@ -408,7 +407,7 @@ func c03emitted(p *core.Program, t types.Type, tmpl, fld string, depth int) []c0
 		n, why := defStart()
 		fn := c03Method(t, "MarshalXML")
 		if fi := c03FuncInfoOf(p, fn); fi != nil {
-			ov := c03StartOverrideOf(fi)
+			ov := c04StartOverrideOf(p, fi)
 			switch {
 			case ov.Unknown != "":
 				return []c03Emit{{Err: funcName(fn) + ": " + ov.Unknown}}
@@ -464,251 +463,11 @@ func c03emitted(p *core.Program, t types.Type, tmpl, fld string, depth int) []c0
 	return []c03Emit{{Name: n, Why: why}}
 }
 
-// c03StartOverrideOf analyses what MarshalXML method fi does with its start parameter. Enumerated idioms:
-//
-//	start.Name.Local = "const"            (top-level statement of the body)
-//	start.Name = xml.Name{Local: "const"} (top-level statement of the body)
-//	e.EncodeToken(start) / e.EncodeElement(v, start)  with start otherwise unmodified in its Name
-func c03StartOverrideOf(fi *FuncInfo) c03StartOverride {
-	var ov c03StartOverride
-	info := fi.Pkg.TypesInfo
-	sig := fi.Obj.Type().(*types.Signature)
-	if sig.Params().Len() != 2 {
-		ov.Unknown = "MarshalXML does not have (encoder, start) parameters"
-		return ov
-	}
-	start := sig.Params().At(1)
-	topLevel := map[ast.Stmt]bool{}
-	for _, s := range fi.Decl.Body.List {
-		topLevel[s] = true
-	}
-	nForce := 0
-	ast.Inspect(fi.Decl.Body, func(n ast.Node) bool {
-		switch x := n.(type) {
-		case *ast.AssignStmt:
-			for i, l := range x.Lhs {
-				if rootObj(info, l) != start || i >= len(x.Rhs) {
-					continue
-				}
-				path := c03SelPath(l)
-				switch path {
-				case "Name.Local":
-					nForce++
-					if v, ok := constString(info, x.Rhs[i]); ok && topLevel[x] {
-						ov.Forced, ov.ForcePos = v, x.Pos()
-					} else {
-						ov.Unknown = "start.Name.Local is assigned a non-constant or under a condition: " + c03Src(x)
-					}
-				case "Name":
-					nForce++
-					if v, ok := c03NameLit(info, x.Rhs[i]); ok && topLevel[x] {
-						ov.Forced, ov.ForcePos = v, x.Pos()
-					} else {
-						ov.Unknown = "start.Name is assigned a non-constant or under a condition: " + c03Src(x)
-					}
-				case "":
-					ov.Unknown = "the start parameter is reassigned: " + c03Src(x)
-				}
-			}
-		case *ast.CallExpr:
-			fn := callee(info, x)
-			if isMethod(fn, "encoding/xml.Encoder", "EncodeToken") && len(x.Args) == 1 && objOf(info, x.Args[0]) == start {
-				ov.Emits, ov.Passes = true, true
-			}
-			if isMethod(fn, "encoding/xml.Encoder", "EncodeElement") && len(x.Args) == 2 && objOf(info, x.Args[1]) == start {
-				ov.Emits, ov.Passes = true, true
-			}
-		}
-		return true
-	})
-	if nForce > 1 && ov.Unknown == "" {
-		ov.Unknown = "start.Name is assigned more than once"
-	}
-	if ov.Forced != "" {
-		ov.Passes = false
-	}
-	return ov
-}
-
-// c03SelPath renders the field path of a selector chain below its root identifier ("Name.Local").
-func c03SelPath(e ast.Expr) string {
-	var parts []string
-	for {
-		switch x := ast.Unparen(e).(type) {
-		case *ast.SelectorExpr:
-			parts = append([]string{x.Sel.Name}, parts...)
-			e = x.X
-		case *ast.Ident:
-			return strings.Join(parts, ".")
-		default:
-			return "?"
-		}
-	}
-}
-
 // c03FS is the file set of the program under analysis (set by c03Init at the start of every rule).
 var c03FS = token.NewFileSet()
 
 // c03Init records the file set used for rendering source in model diagnostics.
 func c03Init(r *core.R) { c03FS = r.P.Fset }
-
-func c03Src(n ast.Node) string { return src(c03FS, n) }
-
-// c03NameLit evaluates xml.Name{Local: "const"} (Space must be absent or empty).
-func c03NameLit(info *types.Info, e ast.Expr) (string, bool) {
-	cl, ok := ast.Unparen(e).(*ast.CompositeLit)
-	if !ok || namedPath(info.TypeOf(cl)) != "encoding/xml.Name" {
-		return "", false
-	}
-	name, found := "", false
-	for i, el := range cl.Elts {
-		kv, ok := el.(*ast.KeyValueExpr)
-		if !ok {
-			// positional: Space, Local
-			if i == 1 {
-				if v, ok := constString(info, el); ok {
-					name, found = v, true
-				}
-			}
-			continue
-		}
-		k, _ := kv.Key.(*ast.Ident)
-		if k != nil && k.Name == "Local" {
-			if v, ok := constString(info, kv.Value); ok {
-				name, found = v, true
-			}
-		}
-	}
-	return name, found
-}
-
-// c03StartName is the resolved Name.Local of an expression of type xml.StartElement.
-type c03StartName struct {
-	Kind  string       // "const" | "param" (Name.Local is a parameter of the enclosing function) | "pass" (the MarshalXML start parameter, unrenamed) | "unknown"
-	Const string       // Kind const
-	Param types.Object // Kind param: the string parameter; Kind pass: the start parameter
-	Var   types.Object // the local variable holding the start element, if any (for End() pairing)
-	Why   string
-}
-
-// c03ResolveStart resolves the element name of a StartElement-typed expression in function fi. Idioms:
-//
-//	xml.StartElement{Name: xml.Name{Local: X}}      X constant or a parameter
-//	t   where t := <the above>, assigned once, Name never reassigned
-//	start (second parameter of a MarshalXML method), possibly after start.Name.Local = "const"
-func c03ResolveStart(fi *FuncInfo, e ast.Expr) c03StartName {
-	info := fi.Pkg.TypesInfo
-	e = ast.Unparen(e)
-	if cl, ok := e.(*ast.CompositeLit); ok && namedPath(info.TypeOf(cl)) == "encoding/xml.StartElement" {
-		for i, el := range cl.Elts {
-			var val ast.Expr
-			if kv, ok := el.(*ast.KeyValueExpr); ok {
-				if k, _ := kv.Key.(*ast.Ident); k == nil || k.Name != "Name" {
-					continue
-				}
-				val = kv.Value
-			} else if i == 0 {
-				val = el
-			} else {
-				continue
-			}
-			if v, ok := c03NameLit(info, val); ok {
-				return c03StartName{Kind: "const", Const: v}
-			}
-			// xml.Name{Local: param}
-			if ncl, ok := ast.Unparen(val).(*ast.CompositeLit); ok {
-				for _, nel := range ncl.Elts {
-					if kv, ok := nel.(*ast.KeyValueExpr); ok {
-						if k, _ := kv.Key.(*ast.Ident); k != nil && k.Name == "Local" {
-							if o := objOf(info, kv.Value); o != nil && c03IsParam(fi, o) {
-								return c03StartName{Kind: "param", Param: o}
-							}
-						}
-					}
-				}
-			}
-		}
-		return c03StartName{Kind: "unknown", Why: "start element literal without a constant or parameter Name.Local"}
-	}
-	o := objOf(info, e)
-	if o == nil {
-		return c03StartName{Kind: "unknown", Why: "start element is neither a literal nor a variable"}
-	}
-	if c03IsParam(fi, o) {
-		if fi.Obj.Name() == "MarshalXML" {
-			ov := c03StartOverrideOf(fi)
-			switch {
-			case ov.Unknown != "":
-				return c03StartName{Kind: "unknown", Why: ov.Unknown}
-			case ov.Forced != "":
-				return c03StartName{Kind: "const", Const: ov.Forced, Var: o}
-			}
-			return c03StartName{Kind: "pass", Param: o, Var: o}
-		}
-		return c03StartName{Kind: "unknown", Why: "start element is a parameter of a function that is not MarshalXML"}
-	}
-	// local variable: exactly one defining assignment from a literal, Name never reassigned
-	var def ast.Expr
-	ndef, bad := 0, ""
-	ast.Inspect(fi.Decl.Body, func(n ast.Node) bool {
-		switch x := n.(type) {
-		case *ast.AssignStmt:
-			for i, l := range x.Lhs {
-				if rootObj(info, l) != o {
-					continue
-				}
-				if id, ok := ast.Unparen(l).(*ast.Ident); ok && objOf(info, id) == o && i < len(x.Rhs) {
-					ndef++
-					def = x.Rhs[i]
-				} else if strings.HasPrefix(c03SelPath(l), "Name") {
-					bad = "its Name is reassigned: " + c03Src(x)
-				}
-			}
-		case *ast.ValueSpec:
-			for i, nm := range x.Names {
-				if info.Defs[nm] == o && i < len(x.Values) {
-					ndef++
-					def = x.Values[i]
-				}
-			}
-		case *ast.UnaryExpr:
-			if x.Op == token.AND && rootObj(info, x.X) == o {
-				bad = "its address is taken"
-			}
-		}
-		return true
-	})
-	if bad != "" || ndef != 1 || def == nil {
-		if bad == "" {
-			bad = fmt.Sprintf("it has %d defining assignments", ndef)
-		}
-		return c03StartName{Kind: "unknown", Why: "start element variable " + o.Name() + ": " + bad}
-	}
-	r := c03ResolveStart(fi, def)
-	r.Var = o
-	return r
-}
-
-func c03IsParam(fi *FuncInfo, o types.Object) bool {
-	sig := fi.Obj.Type().(*types.Signature)
-	for i := 0; i < sig.Params().Len(); i++ {
-		if sig.Params().At(i) == o {
-			return true
-		}
-	}
-	return false
-}
-
-// c03ParamIndex returns the index of parameter o in fi's signature, or -1.
-func c03ParamIndex(fi *FuncInfo, o types.Object) int {
-	sig := fi.Obj.Type().(*types.Signature)
-	for i := 0; i < sig.Params().Len(); i++ {
-		if sig.Params().At(i) == o {
-			return i
-		}
-	}
-	return -1
-}
 
 // ---- JSON ----------------------------------------------------------------------------------
 
@@ -920,94 +679,9 @@ func c03TextLike(p *core.Program, t types.Type) bool {
 
 // ---- small shared helpers ------------------------------------------------------------------
 
-// c03EncoderParam returns the *xml.Encoder parameter of a function, or nil.
-func c03EncoderParam(fi *FuncInfo) *types.Var {
-	sig := fi.Obj.Type().(*types.Signature)
-	for i := 0; i < sig.Params().Len(); i++ {
-		if namedPath(sig.Params().At(i).Type()) == "encoding/xml.Encoder" {
-			return sig.Params().At(i)
-		}
-	}
-	return nil
-}
-
 // c03Receiver returns the receiver variable of a method declaration.
 func c03Receiver(fi *FuncInfo) *types.Var {
 	return fi.Obj.Type().(*types.Signature).Recv()
-}
-
-// c03StringSwitch finds the switch statements in body whose cases are string constants and returns them.
-type c03Case struct {
-	Label  string
-	Clause *ast.CaseClause
-}
-
-type c03Switch struct {
-	Stmt    *ast.SwitchStmt
-	Cases   []c03Case
-	Default *ast.CaseClause
-}
-
-func c03StringSwitches(info *types.Info, body ast.Node) []*c03Switch {
-	var out []*c03Switch
-	ast.Inspect(body, func(n ast.Node) bool {
-		sw, ok := n.(*ast.SwitchStmt)
-		if !ok || sw.Tag == nil {
-			return true
-		}
-		s := &c03Switch{Stmt: sw}
-		for _, st := range sw.Body.List {
-			cc := st.(*ast.CaseClause)
-			if cc.List == nil {
-				s.Default = cc
-				continue
-			}
-			for _, e := range cc.List {
-				if v, ok := constString(info, e); ok {
-					s.Cases = append(s.Cases, c03Case{Label: v, Clause: cc})
-				}
-			}
-		}
-		if len(s.Cases) > 0 {
-			out = append(out, s)
-		}
-		return true
-	})
-	return out
-}
-
-// c03NewOf recognises `x := &T{}` / `x := new(T)` / `var x = &T{}` for variable o inside node and returns T.
-func c03NewOf(info *types.Info, within ast.Node, o types.Object) types.Type {
-	var res types.Type
-	ast.Inspect(within, func(n ast.Node) bool {
-		as, ok := n.(*ast.AssignStmt)
-		if !ok {
-			return true
-		}
-		for i, l := range as.Lhs {
-			if i < len(as.Rhs) && objOf(info, l) == o {
-				if t := c03AllocType(info, as.Rhs[i]); t != nil {
-					res = t
-				}
-			}
-		}
-		return true
-	})
-	return res
-}
-
-// c03AllocType returns T for `&T{...}` or `new(T)`.
-func c03AllocType(info *types.Info, e ast.Expr) types.Type {
-	e = ast.Unparen(e)
-	if ue, ok := e.(*ast.UnaryExpr); ok && ue.Op == token.AND {
-		if cl, ok := ast.Unparen(ue.X).(*ast.CompositeLit); ok {
-			return info.TypeOf(cl)
-		}
-	}
-	if call, ok := e.(*ast.CallExpr); ok && builtinName(info, call) == "new" && len(call.Args) == 1 {
-		return info.TypeOf(call.Args[0])
-	}
-	return nil
 }
 
 // c03SortedKeys returns the sorted keys of a string set.
